@@ -8,35 +8,10 @@
 #include <votca/tools/tokenizer.h>
 #include <votca/xtp/IndexParser.h>
 
+#include "ref_c18.h"
+
 using namespace vv;
 using votca::Index;
-
-// ------------------------------------------------------------ reference glob matcher (DP over prefixes)
-static bool ref_glob(const std::string &p, const std::string &s) {
-  size_t n = p.size(), m = s.size();
-  std::vector<std::vector<char>> d(n + 1, std::vector<char>(m + 1, 0));
-  d[0][0] = 1;
-  for (size_t i = 1; i <= n; ++i) {
-    if (p[i - 1] == '*') d[i][0] = d[i - 1][0];
-  }
-  for (size_t i = 1; i <= n; ++i) {
-    for (size_t j = 1; j <= m; ++j) {
-      if (p[i - 1] == '*')
-        d[i][j] = d[i - 1][j] || d[i][j - 1];
-      else if (p[i - 1] == '?' || p[i - 1] == s[j - 1])
-        d[i][j] = d[i - 1][j - 1];
-    }
-  }
-  return d[n][m];
-}
-
-static bool backtracking_pattern(const std::string &p) {
-  size_t st = p.find('*');
-  if (st == std::string::npos) return false;
-  for (size_t i = st + 1; i < p.size(); ++i)
-    if (p[i] != '*' && p[i] != '?') return true;
-  return false;
-}
 
 static Result run_wild(const json &c) {
   Result r;
@@ -98,147 +73,6 @@ static void enum_wild(int level, const std::function<bool(const json &)> &emit) 
   for (auto &p : pats)
     for (auto &s : strs)
       if (!emit(json{{"pattern", p}, {"string", s}})) return;
-}
-
-// ------------------------------------------------------------ ranges
-struct RefRange {
-  enum Kind { OK, ZERO_STRIDE, WRONG_DIRECTION, MUST_REJECT, UNCLEAR } kind = OK;
-  std::vector<long> seq;
-  std::string why;
-};
-
-static bool parse_int(const std::string &t, long &v) {
-  if (t.empty()) return false;
-  size_t i = 0;
-  if (t[0] == '+' || t[0] == '-') i = 1;
-  if (i >= t.size() || t.size() - i > 9) return false;
-  for (size_t k = i; k < t.size(); ++k)
-    if (t[k] < '0' || t[k] > '9') return false;
-  v = std::stol(t);
-  return true;
-}
-
-static std::vector<std::string> split_keep_empty(const std::string &s, char sep) {
-  std::vector<std::string> out;
-  std::string cur;
-  for (char ch : s) {
-    if (ch == sep) {
-      out.push_back(cur);
-      cur.clear();
-    } else
-      cur += ch;
-  }
-  out.push_back(cur);
-  return out;
-}
-
-static RefRange ref_range(const std::string &expr_in) {
-  RefRange R;
-  std::string expr;
-  for (char ch : expr_in)
-    if (ch != ' ') expr += ch;
-  if (expr.empty()) {
-    R.kind = RefRange::UNCLEAR;
-    R.why = "empty expression";
-    return R;
-  }
-  auto worse = [&](RefRange::Kind k, const std::string &why) {
-    // precedence: MUST_REJECT > UNCLEAR > ZERO_STRIDE > WRONG_DIRECTION > OK
-    static const int rank[] = {0, 2, 1, 4, 3};
-    if (rank[k] > rank[R.kind]) {
-      R.kind = k;
-      R.why = why;
-    }
-  };
-  for (const std::string &b : split_keep_empty(expr, ',')) {
-    if (b.empty()) {
-      worse(RefRange::UNCLEAR, "empty block");
-      continue;
-    }
-    std::vector<std::string> f = split_keep_empty(b, ':');
-    if (f.size() > 3) {
-      // more than three fields: with all fields non-empty this is clearly malformed
-      bool any_empty = false;
-      for (auto &t : f) any_empty |= t.empty();
-      worse(any_empty ? RefRange::UNCLEAR : RefRange::MUST_REJECT, "more than three fields");
-      continue;
-    }
-    bool bad_tok = false, empty_tok = false;
-    std::vector<long> v(f.size());
-    for (size_t i = 0; i < f.size(); ++i) {
-      if (f[i].empty())
-        empty_tok = true;
-      else if (!parse_int(f[i], v[i]))
-        bad_tok = true;
-    }
-    if (bad_tok) {
-      worse(RefRange::MUST_REJECT, "non-numeric token in '" + b + "'");
-      continue;
-    }
-    if (empty_tok) {
-      if (f.size() == 3 && f[1].empty() && !f[0].empty() && !f[2].empty())
-        worse(RefRange::MUST_REJECT, "empty step in '" + b + "'");
-      else
-        worse(RefRange::UNCLEAR, "empty field in '" + b + "'");
-      continue;
-    }
-    long bg = v[0], en = v[0], sd = 1;
-    if (f.size() == 2) en = v[1];
-    if (f.size() == 3) {
-      sd = v[1];
-      en = v[2];
-    }
-    if (sd == 0) {
-      worse(RefRange::ZERO_STRIDE, "zero stride");
-      continue;
-    }
-    if ((sd > 0 && bg > en) || (sd < 0 && bg < en)) {
-      worse(RefRange::WRONG_DIRECTION, "begin/end/stride direction");
-      continue;
-    }
-    if (sd > 0)
-      for (long x = bg; x <= en; x += sd) R.seq.push_back(x);
-    else
-      for (long x = bg; x >= en; x += sd) R.seq.push_back(x);
-  }
-  return R;
-}
-
-struct Enumerated {
-  bool accepted = false, terminated = true;
-  std::vector<long> seq;
-  std::string err, printed;
-};
-
-static Enumerated impl_range(const std::string &expr) {
-  Enumerated E;
-  votca::tools::RangeParser rp;
-  try {
-    rp.Parse(expr);
-  } catch (const std::exception &e) {
-    E.err = e.what();
-    return E;
-  }
-  E.accepted = true;
-  long steps = 0;
-  for (auto it = rp.begin(); it != rp.end(); ++it) {
-    if (++steps > 10000) {
-      E.terminated = false;
-      break;
-    }
-    E.seq.push_back(*it);
-  }
-  std::ostringstream os;
-  os << rp;
-  E.printed = os.str();
-  return E;
-}
-
-static std::string show(const std::vector<long> &v) {
-  std::string s = "[";
-  for (size_t i = 0; i < v.size() && i < 20; ++i) s += (i ? "," : "") + std::to_string(v[i]);
-  if (v.size() > 20) s += ",...";
-  return s + "]";
 }
 
 static Result run_range(const json &c) {
